@@ -1,8 +1,8 @@
 PROP = {
     "id": "C51",
     "theorem_modules": ["Verif.Properties.C51"],
-    "min_theorems": 7,
-    "required_theorems": ["Verif.Properties.C51.orderedmap_refines", "Verif.Properties.C51.bimap_refines", "Verif.Properties.C51.bimap_inverse"],
+    "min_theorems": 12,
+    "required_theorems": ["Verif.Properties.C51.orderedmap_refines", "Verif.Properties.C51.bimap_refines", "Verif.Properties.C51.bimap_inverse", "Verif.Properties.C51.ist_invariant", "Verif.Properties.C51.ist_search_sound_complete"],
     "streams": [
         {"name": "ds", "driver": "drv_ds",
          "quick": {"n": 1500}, "thorough": {"n": 20000, "seeds": 4}},
